@@ -120,9 +120,13 @@ class Program(object):
                     statement.determine_pcr_relative_sizes(self.statements, index)
 
         address = 0
+        bytes_emitted = False
         for index, statement in enumerate(self.statements):
+            if statement.instruction.is_origin and bytes_emitted:
+                raise TranslationError("ORG after code or data would leave a gap in the image", statement)
             address = statement.set_address(address)
             address += statement.code_pkg.size
+            bytes_emitted = bytes_emitted or statement.code_pkg.size > 0
 
         for index, statement in enumerate(self.statements):
             statement.fix_addresses(self.statements, index)
